@@ -49,7 +49,8 @@ type world struct {
 	e0, e1       *epb.VMLaunchEndorsement
 	m4, mrtd     []byte
 	vcekAt       map[int64][]byte
-	raw          []byte
+	raw, rawX    []byte
+	pools        map[string]*x509.CertPool
 	rootSets     map[string][]*gen.Identity
 	rootSetNames []string
 	times        map[string]time.Time
@@ -92,6 +93,13 @@ func (w *world) rawQuote() []byte {
 		w.raw = gen.RawSnpQuote(w.m4, nil, w.times["mid"])
 	}
 	return w.raw
+}
+
+func (w *world) rawQuoteGenuineExtras() []byte {
+	if w.rawX == nil {
+		w.rawX = gen.RawSnpQuote(w.m4, map[string][]byte{sev.GCEFwCertGUID: marshalE(w.e0)}, w.times["mid"])
+	}
+	return w.rawX
 }
 
 func (w *world) vcek(now time.Time) []byte {
@@ -192,6 +200,23 @@ func (w *world) forge(s spec, bit uint) []byte {
 	case "pss-salt":
 		salts := []int{0, 20, 32, 222}
 		e.Signature = gen.SignPSS(p.Signer.Key, e.SerializedUefiGolden, salts[s.param%len(salts)])
+	case "alt-alg": // signer certificates issued with other signature algorithms x endorsement signature schemes
+		leaves := []*gen.Identity{p.SignerPKCS1, p.SignerPSS384}
+		leaf := leaves[(s.param/4)%2]
+		pl := withCert(w.g0, leaf.Cert.Raw)
+		e = &epb.VMLaunchEndorsement{SerializedUefiGolden: pl}
+		d256 := sha256.Sum256(pl)
+		d384 := sha512.Sum384(pl)
+		switch s.param % 4 {
+		case 0: // PKCS#1 v1.5 / SHA-256
+			e.Signature, _ = rsa.SignPKCS1v15(crand.Reader, leaf.Key, crypto.SHA256, d256[:])
+		case 1: // PSS / SHA-256 (genuine scheme)
+			e.Signature = gen.SignPSS(leaf.Key, pl, rsa.PSSSaltLengthEqualsHash)
+		case 2: // PSS / SHA-384
+			e.Signature, _ = rsa.SignPSS(crand.Reader, leaf.Key, crypto.SHA384, d384[:], &rsa.PSSOptions{SaltLength: rsa.PSSSaltLengthEqualsHash})
+		case 3: // PKCS#1 v1.5 / SHA-384
+			e.Signature, _ = rsa.SignPKCS1v15(crand.Reader, leaf.Key, crypto.SHA384, d384[:])
+		}
 	case "wire-unknown-field": // unknown field appended to the endorsement message
 		b := marshalE(e)
 		b = protowire.AppendTag(b, 1000, protowire.BytesType)
@@ -259,12 +284,15 @@ func (w *world) specs(c *core.Ctx) []spec {
 	}
 	simple := []string{"sig-truncate", "sig-extend", "sig-empty", "sig-zero", "sig-swap", "payload-swap", "resign-attacker-keep-cert",
 		"attacker-chain", "root-cert-other-key", "self-signed-leaf", "inter-leaf", "short-root-leaf", "root-as-signer", "no-cert",
-		"pkcs1v15", "pss-sha384", "pss-salt", "wire-unknown-field", "wire-dup-sig-bad-last", "wire-dup-sig-good-last",
+		"pkcs1v15", "pss-sha384", "pss-salt", "alt-alg", "wire-unknown-field", "wire-dup-sig-bad-last", "wire-dup-sig-good-last",
 		"payload-unknown-field", "payload-unknown-field-resigned", "payload-truncate"}
 	for _, op := range simple {
 		nparam := 1
 		if op == "pss-salt" || op == "sig-truncate" || op == "sig-extend" || op == "payload-truncate" {
 			nparam = 4
+		}
+		if op == "alt-alg" {
+			nparam = 8
 		}
 		for p := 0; p < nparam; p++ {
 			for _, rs := range w.rootSetNames {
@@ -295,11 +323,25 @@ type entry struct {
 	call func(w *world, raw []byte, e *epb.VMLaunchEndorsement, ids []*gen.Identity, rootsNil bool, now time.Time) (bool, error)
 }
 
-func pool(ids []*gen.Identity, isNil bool) *x509.CertPool {
+// pool returns ONE pool object per root set for the whole process (a verifier service keeps its
+// trust store around; anything keyed on the pool object is therefore exercised across cases).
+func (w *world) pool(ids []*gen.Identity, isNil bool) *x509.CertPool {
 	if isNil {
 		return nil
 	}
-	return gen.Pool(ids...)
+	key := ""
+	for _, id := range ids {
+		key += id.Cert.Subject.CommonName + "/" + id.Cert.SerialNumber.String() + ";"
+	}
+	if w.pools == nil {
+		w.pools = map[string]*x509.CertPool{}
+	}
+	if p, ok := w.pools[key]; ok {
+		return p
+	}
+	p := gen.Pool(ids...)
+	w.pools[key] = p
+	return p
 }
 
 func pemOf(ids []*gen.Identity) []byte {
@@ -315,62 +357,89 @@ func entries() []entry {
 	snpURL := func(m []byte) string { return verify.GCETcbURL(extractsev.GCETcbObjectName(sev.GCEUefiFamilyID, m)) }
 	return []entry{
 		{"verify.Endorsement", func(w *world, raw []byte, e *epb.VMLaunchEndorsement, ids []*gen.Identity, rn bool, now time.Time) (bool, error) {
-			return true, verify.Endorsement(raw, &verify.Options{RootsOfTrust: pool(ids, rn), Now: now})
+			return true, verify.Endorsement(raw, &verify.Options{RootsOfTrust: w.pool(ids, rn), Now: now})
 		}},
 		{"verify.EndorsementProto", func(w *world, raw []byte, e *epb.VMLaunchEndorsement, ids []*gen.Identity, rn bool, now time.Time) (bool, error) {
 			if e == nil {
 				return false, nil
 			}
-			return true, verify.EndorsementProto(e, &verify.Options{RootsOfTrust: pool(ids, rn), Now: now})
+			return true, verify.EndorsementProto(e, &verify.Options{RootsOfTrust: w.pool(ids, rn), Now: now})
 		}},
 		{"verify.EndorsementProto+SNP", func(w *world, raw []byte, e *epb.VMLaunchEndorsement, ids []*gen.Identity, rn bool, now time.Time) (bool, error) {
 			if e == nil {
 				return false, nil
 			}
-			return true, verify.EndorsementProto(e, &verify.Options{RootsOfTrust: pool(ids, rn), Now: now, SNP: &verify.SNPOptions{Measurement: w.m4, ExpectedLaunchVMSAs: 4}})
+			return true, verify.EndorsementProto(e, &verify.Options{RootsOfTrust: w.pool(ids, rn), Now: now, SNP: &verify.SNPOptions{Measurement: w.m4, ExpectedLaunchVMSAs: 4}})
 		}},
 		{"SNPValidateFunc/arg", func(w *world, raw []byte, e *epb.VMLaunchEndorsement, ids []*gen.Identity, rn bool, now time.Time) (bool, error) {
-			f := verify.SNPValidateFunc(&verify.Options{RootsOfTrust: pool(ids, rn), Now: now})
+			f := verify.SNPValidateFunc(&verify.Options{RootsOfTrust: w.pool(ids, rn), Now: now})
 			return true, f(&spb.Attestation{Report: &spb.Report{Measurement: w.m4}}, raw)
 		}},
 		{"SNPValidateFunc/options", func(w *world, raw []byte, e *epb.VMLaunchEndorsement, ids []*gen.Identity, rn bool, now time.Time) (bool, error) {
 			if e == nil {
 				return false, nil
 			}
-			f := verify.SNPValidateFunc(&verify.Options{RootsOfTrust: pool(ids, rn), Now: now, Endorsement: e})
+			f := verify.SNPValidateFunc(&verify.Options{RootsOfTrust: w.pool(ids, rn), Now: now, Endorsement: e})
 			return true, f(&spb.Attestation{Report: &spb.Report{Measurement: w.m4}}, nil)
 		}},
 		{"SNPFamilyValidateFunc/getter", func(w *world, raw []byte, e *epb.VMLaunchEndorsement, ids []*gen.Identity, rn bool, now time.Time) (bool, error) {
 			g := &doubles.Getter{Answers: map[string][]byte{snpURL(w.m4): raw}}
-			f := verify.SNPFamilyValidateFunc(sev.GCEUefiFamilyID, &verify.Options{RootsOfTrust: pool(ids, rn), Now: now, Getter: g})
+			f := verify.SNPFamilyValidateFunc(sev.GCEUefiFamilyID, &verify.Options{RootsOfTrust: w.pool(ids, rn), Now: now, Getter: g})
 			return true, f(&spb.Attestation{Report: &spb.Report{Measurement: w.m4}}, nil)
 		}},
 		{"SevValidate/options", func(w *world, raw []byte, e *epb.VMLaunchEndorsement, ids []*gen.Identity, rn bool, now time.Time) (bool, error) {
 			if e == nil {
 				return false, nil
 			}
-			return true, gcetcbendorsement.SevValidate(ctx, gen.SnpAttestation(w.m4, w.vcek(w.times["mid"])), &gcetcbendorsement.SevValidateOptions{Endorsement: e, RootsOfTrust: pool(ids, rn), Now: now})
+			return true, gcetcbendorsement.SevValidate(ctx, gen.SnpAttestation(w.m4, w.vcek(w.times["mid"])), &gcetcbendorsement.SevValidateOptions{Endorsement: e, RootsOfTrust: w.pool(ids, rn), Now: now})
 		}},
 		{"SevValidate/extras", func(w *world, raw []byte, e *epb.VMLaunchEndorsement, ids []*gen.Identity, rn bool, now time.Time) (bool, error) {
 			at := gen.SnpAttestation(w.m4, w.vcek(w.times["mid"]))
 			at.CertificateChain.Extras = map[string][]byte{sev.GCEFwCertGUID: raw}
-			return true, gcetcbendorsement.SevValidate(ctx, at, &gcetcbendorsement.SevValidateOptions{RootsOfTrust: pool(ids, rn), Now: now})
+			return true, gcetcbendorsement.SevValidate(ctx, at, &gcetcbendorsement.SevValidateOptions{RootsOfTrust: w.pool(ids, rn), Now: now})
 		}},
 		{"SevValidate/getter", func(w *world, raw []byte, e *epb.VMLaunchEndorsement, ids []*gen.Identity, rn bool, now time.Time) (bool, error) {
 			g := &doubles.Getter{Answers: map[string][]byte{snpURL(w.m4): raw}}
-			return true, gcetcbendorsement.SevValidate(ctx, gen.SnpAttestation(w.m4, w.vcek(w.times["mid"])), &gcetcbendorsement.SevValidateOptions{RootsOfTrust: pool(ids, rn), Now: now, Getter: g})
+			return true, gcetcbendorsement.SevValidate(ctx, gen.SnpAttestation(w.m4, w.vcek(w.times["mid"])), &gcetcbendorsement.SevValidateOptions{RootsOfTrust: w.pool(ids, rn), Now: now, Getter: g})
 		}},
 		{"TdxValidate/options", func(w *world, raw []byte, e *epb.VMLaunchEndorsement, ids []*gen.Identity, rn bool, now time.Time) (bool, error) {
 			if e == nil {
 				return false, nil
 			}
-			return true, gcetcbendorsement.TdxValidate(ctx, gen.TdxQuote(w.mrtd), &gcetcbendorsement.TdxValidateOptions{Endorsement: e, RootsOfTrust: pool(ids, rn), Now: now})
+			return true, gcetcbendorsement.TdxValidate(ctx, gen.TdxQuote(w.mrtd), &gcetcbendorsement.TdxValidateOptions{Endorsement: e, RootsOfTrust: w.pool(ids, rn), Now: now})
 		}},
 		{"TdxValidate/options+ram", func(w *world, raw []byte, e *epb.VMLaunchEndorsement, ids []*gen.Identity, rn bool, now time.Time) (bool, error) {
 			if e == nil {
 				return false, nil
 			}
-			return true, gcetcbendorsement.TdxValidate(ctx, gen.TdxQuote(w.mrtd), &gcetcbendorsement.TdxValidateOptions{Endorsement: e, RootsOfTrust: pool(ids, rn), Now: now, ExpectedRAMGiB: 16})
+			return true, gcetcbendorsement.TdxValidate(ctx, gen.TdxQuote(w.mrtd), &gcetcbendorsement.TdxValidateOptions{Endorsement: e, RootsOfTrust: w.pool(ids, rn), Now: now, ExpectedRAMGiB: 16})
+		}},
+		{"SNPValidateFunc/options-over-genuine-arg", func(w *world, raw []byte, e *epb.VMLaunchEndorsement, ids []*gen.Identity, rn bool, now time.Time) (bool, error) {
+			if e == nil {
+				return false, nil
+			}
+			// verify.Options.Endorsement is documented to take precedence over the blob from the certificate table
+			f := verify.SNPValidateFunc(&verify.Options{RootsOfTrust: w.pool(ids, rn), Now: now, Endorsement: e})
+			return true, f(&spb.Attestation{Report: &spb.Report{Measurement: w.m4}}, marshalE(w.e0))
+		}},
+		{"SevValidate/options-over-genuine-extras", func(w *world, raw []byte, e *epb.VMLaunchEndorsement, ids []*gen.Identity, rn bool, now time.Time) (bool, error) {
+			if e == nil {
+				return false, nil
+			}
+			// SevValidateOptions.Endorsement "overrides what could be extracted from the attestation"
+			at := gen.SnpAttestation(w.m4, w.vcek(w.times["mid"]))
+			at.CertificateChain.Extras = map[string][]byte{sev.GCEFwCertGUID: marshalE(w.e0)}
+			return true, gcetcbendorsement.SevValidate(ctx, at, &gcetcbendorsement.SevValidateOptions{Endorsement: e, RootsOfTrust: w.pool(ids, rn), Now: now})
+		}},
+		{"cli:sev validate/endorsement-over-genuine-cert-table", func(w *world, raw []byte, e *epb.VMLaunchEndorsement, ids []*gen.Identity, rn bool, now time.Time) (bool, error) {
+			if rn || len(ids) == 0 {
+				return false, nil
+			}
+			io := doubles.NewMemIO()
+			io.Files["e.binarypb"] = raw
+			io.Files["root.pem"] = pemOf(ids)
+			io.Files["at.bin"] = w.rawQuoteGenuineExtras()
+			return true, (&doubles.CLI{IO: io, Now: now, Getter: &doubles.Getter{}}).Run("sev", "validate", "at.bin", "--endorsement", "e.binarypb", "--root_cert", "root.pem")
 		}},
 		{"cli:verify", func(w *world, raw []byte, e *epb.VMLaunchEndorsement, ids []*gen.Identity, rn bool, now time.Time) (bool, error) {
 			if rn || len(ids) == 0 {
@@ -428,16 +497,12 @@ func run(c *core.Ctx) {
 	ents := entries()
 	genuineAccept := map[string]int{}
 	forgedReject := map[string]int{}
-	for i, s := range specs {
-		if !c.Mine(i) {
-			continue
-		}
-		r := c.Rand(i)
-		raw := w.forge(s, uint(r.IntN(8)))
+	// one step = one (operator, roots, time) pushed through every entry point
+	step := func(i int, s spec, bit uint, seqTag string) {
+		raw := w.forge(s, bit)
 		ids := w.rootSets[s.roots]
 		now := w.times[s.now]
-		gname := fmt.Sprintf("%s[%d] roots=%s now=%s", s.op, s.param, s.roots, s.now)
-		c.Begin(i, gname, "all", nil)
+		gname := fmt.Sprintf("%s%s[%d] roots=%s now=%s", seqTag, s.op, s.param, s.roots, s.now)
 		var rootCerts []*x509.Certificate
 		for _, id := range ids {
 			rootCerts = append(rootCerts, id.Cert)
@@ -448,28 +513,36 @@ func run(c *core.Ctx) {
 		if proto.Unmarshal(raw, pe) == nil {
 			e = pe
 		}
+		cellTag := ""
+		if seqTag != "" {
+			cellTag = "seq|"
+		}
 		for _, en := range ents {
 			var ran bool
 			var err error
-			m := c.Guard(i, en.name, gname, core.Budget{}, func() { ran, err = en.call(w, raw, e, ids, s.roots == "nil", now) })
+			m := c.Guard(i, en.name, gname, core.Budget{PanicNotJudged: true}, func() { ran, err = en.call(w, raw, e, ids, s.roots == "nil", now) })
 			if m.Panicked || !ran {
 				continue
 			}
 			accepted := err == nil
 			switch {
 			case accepted && !verdict.Authentic:
-				c.Violate(core.Violation{Kind: "oracle", Entry: en.name, Site: "accepted-non-authentic", Gen: gname, Case: i,
+				site := "accepted-non-authentic"
+				if seqTag != "" {
+					site = "accepted-non-authentic(in-sequence)"
+				}
+				c.Violate(core.Violation{Kind: "oracle", Entry: en.name, Site: site, Gen: gname, Case: i,
 					Detail:  fmt.Sprintf("%s accepted an endorsement that is not authentic: %s", en.name, verdict.Why),
 					Witness: map[string]any{"endorsement": raw, "roots_pem": string(pemOf(ids)), "now": now.Format(time.RFC3339), "oracle": verdict.Why}})
-				c.Cell("%s|%s|%s|%s|ACCEPT-NONAUTHENTIC", s.op, s.roots, s.now, en.name)
+				c.Cell("%s%s|%s|%s|%s|ACCEPT-NONAUTHENTIC", cellTag, s.op, s.roots, s.now, en.name)
 			case accepted:
 				genuineAccept[en.name]++
-				c.Cell("%s|%s|%s|%s|accept-authentic", s.op, s.roots, s.now, en.name)
+				c.Cell("%s%s|%s|%s|%s|accept-authentic", cellTag, s.op, s.roots, s.now, en.name)
 			case !verdict.Authentic:
 				forgedReject[en.name]++
-				c.Cell("%s|%s|%s|%s|reject-nonauthentic", s.op, s.roots, s.now, en.name)
+				c.Cell("%s%s|%s|%s|%s|reject-nonauthentic", cellTag, s.op, s.roots, s.now, en.name)
 			default:
-				c.Cell("%s|%s|%s|%s|reject-authentic", s.op, s.roots, s.now, en.name)
+				c.Cell("%s%s|%s|%s|%s|reject-authentic", cellTag, s.op, s.roots, s.now, en.name)
 				c.Count("reject-authentic (verifier stricter than oracle)/"+s.op, 1)
 			}
 		}
@@ -478,8 +551,37 @@ func run(c *core.Ctx) {
 		} else {
 			c.Count("cases-nonauthentic", 1)
 		}
-		if i%97 == 0 {
+		if seqTag == "" && i%97 == 0 {
 			c.Sample(map[string]any{"case": i, "gen": gname, "oracle_authentic": verdict.Authentic, "oracle_why": verdict.Why, "endorsement_len": len(raw)})
+		}
+	}
+	for i, s := range specs {
+		if !c.Mine(i) {
+			continue
+		}
+		r := c.Rand(i)
+		c.Begin(i, fmt.Sprintf("%s[%d] roots=%s now=%s", s.op, s.param, s.roots, s.now), "all", nil)
+		step(i, s, uint(r.IntN(8)), "")
+		c.End(i)
+	}
+	// sequences: several steps inside ONE process on the same trust-store objects, so that any state kept
+	// between verifications (caches keyed on certificate / pool / time) is exercised: valid first, then invalid.
+	base := len(specs)
+	seqs := w.sequences(c)
+	for k, sq := range seqs {
+		i := base + k
+		if !c.Mine(i) {
+			continue
+		}
+		r := c.Rand(i)
+		c.Begin(i, fmt.Sprintf("sequence#%d (%d steps)", k, len(sq)), "all", nil)
+		for j, s := range sq {
+			step(i, s, uint(r.IntN(8)), fmt.Sprintf("seq#%d.%d:", k, j))
+		}
+		c.Count("sequences-run", 1)
+		c.Count("sequence-steps", len(sq))
+		if k < 2 {
+			c.Sample(map[string]any{"sequence": k, "steps": fmt.Sprintf("%v", sq)})
 		}
 		c.End(i)
 	}
@@ -490,4 +592,36 @@ func run(c *core.Ctx) {
 		c.Floor("genuine-accept/"+en.name, genuineAccept[en.name] > 0)
 		c.Floor("nonauthentic-reject/"+en.name, forgedReject[en.name] > 0)
 	}
+}
+
+// sequences returns the multi-step cases.
+func (w *world) sequences(c *core.Ctx) [][]spec {
+	g := func(op, roots, now string) spec { return spec{op, 0, roots, now} }
+	fixed := [][]spec{
+		{g("genuine", "genuine", "mid"), g("genuine", "genuine", "after+1s"), g("genuine", "genuine", "before-1s"), g("genuine", "genuine", "far-future"),
+			g("genuine", "genuine", "mid"), g("flip-sig", "genuine", "mid"), g("genuine", "genuine", "mid"), g("flip-payload", "genuine", "mid")},
+		{g("genuine", "genuine", "notAfter"), g("genuine", "genuine", "after+1s"), g("genuine2", "genuine", "mid"), g("genuine2", "genuine", "after+1s"), g("genuine2", "genuine", "before-1s")},
+		{g("genuine", "genuine+foreign", "mid"), g("attacker-chain", "genuine+foreign", "mid"), g("attacker-chain", "genuine", "mid"), g("genuine", "foreign", "mid"), g("genuine", "genuine", "mid"), g("genuine", "empty", "mid")},
+		{g("attacker-chain", "foreign", "mid"), g("attacker-chain", "foreign", "after+1s"), g("resign-attacker-keep-cert", "genuine", "mid"), g("genuine", "genuine", "mid"), g("resign-attacker-keep-cert", "genuine", "mid"), g("sig-swap", "genuine", "mid")},
+		{g("short-root-leaf", "short-root", "mid"), g("short-root-leaf", "short-root", "root-expired"), g("short-root-leaf", "short-root", "far-future"), g("inter-leaf", "genuine+inter", "mid"), g("inter-leaf", "genuine", "mid")},
+		{g("self-signed-leaf", "leaf-in-pool", "mid"), g("self-signed-leaf", "leaf-in-pool", "after+1s"), g("self-signed-leaf", "genuine", "mid"), g("root-as-signer", "genuine", "mid"), g("root-as-signer", "genuine", "far-future")},
+	}
+	r := c.RandNamed("sequences")
+	ops := []string{"genuine", "genuine2", "flip-sig", "flip-payload", "flip-cert", "flip-cert-resign", "sig-swap", "payload-swap", "attacker-chain", "root-cert-other-key", "self-signed-leaf",
+		"inter-leaf", "short-root-leaf", "root-as-signer", "pkcs1v15", "pss-sha384", "alt-alg", "wire-dup-sig-bad-last", "resign-attacker-keep-cert", "no-cert"}
+	n := c.N(24, 400)
+	for k := 0; k < n; k++ {
+		var sq []spec
+		// start valid (warms any cache), then wander
+		sq = append(sq, g([]string{"genuine", "genuine2"}[r.IntN(2)], "genuine", []string{"mid", "notBefore", "notAfter"}[r.IntN(3)]))
+		for j := 0; j < 7; j++ {
+			op := ops[r.IntN(len(ops))]
+			if r.IntN(3) == 0 {
+				op = sq[0].op
+			}
+			sq = append(sq, spec{op, r.IntN(1 << 12), w.rootSetNames[r.IntN(len(w.rootSetNames))], w.timeNames[r.IntN(len(w.timeNames))]})
+		}
+		fixed = append(fixed, sq)
+	}
+	return fixed
 }
